@@ -220,6 +220,15 @@ impl HsWorld {
         if self.server.connected_clients() != ids.len() {
             return Err(Violation::new("C10/connected_clients-disagrees", format!("{} vs {:?}", self.server.connected_clients(), ids)));
         }
+        {
+            let slots = self.server.clients_slot();
+            let mut u = slots.clone();
+            u.sort();
+            u.dedup();
+            if u.len() != ids.len() || slots.len() != ids.len() {
+                return Err(Violation::new("C10/connected_clients-disagrees", format!("clients_slot() = {:?} for clients_id() = {:?}", slots, ids)));
+            }
+        }
         // lookups by id refer to the session authenticated for that id
         let mon: Vec<u64> = self.connected.keys().copied().collect();
         if mon != sorted {
